@@ -5,9 +5,9 @@ namespace LunarVerif.C01
 structure VInv (cfg : Cfg) (s : Sys) : Prop where
   idx : ∀ (i : Nat) (r : Rid) (q : QId) (b : Bool), LEv.verdict i r q b ∈ s.log → i < s.threads.length
   pre : ∀ (i : Nat) (th : Thread) (todo : List (QId × QuotaCfg)), s.threads[i]? = some th → th.pc = Pc.allowed todo →
-    ∃ pre, chain cfg th.q = pre ++ todo ∧ ∀ p ∈ pre, LEv.allowed (keyOf p th.h) th.r true ∈ s.log
+    ∃ pre, chain cfg th.q = pre ++ todo ∧ ∀ p ∈ pre, ∃ amt, LEv.allowed (keyOf p th.h) th.r true amt ∈ s.log
   ver : ∀ (i : Nat) (th : Thread) (r : Rid) (q : QId), s.threads[i]? = some th → LEv.verdict i r q true ∈ s.log →
-    r = th.r ∧ q = th.q ∧ ∀ p ∈ chain cfg th.q, LEv.allowed (keyOf p th.h) th.r true ∈ s.log
+    r = th.r ∧ q = th.q ∧ ∀ p ∈ chain cfg th.q, ∃ amt, LEv.allowed (keyOf p th.h) th.r true amt ∈ s.log
 
 theorem VInv.init (cfg : Cfg) (t0 : Nat) : VInv cfg (Sys.init t0) := by
   constructor
@@ -45,14 +45,14 @@ theorem refundNext_allowed (cfg : Cfg) (q : QId) (rest : List (QId × QuotaCfg))
 /-- What one step of thread `tid` logs and where it goes, as far as verdicts are concerned. -/
 theorem stepThread_verdict (cfg : Cfg) (st : St) (now tid : Nat) (th : Thread) (log : List LEv)
     (hpre : ∀ todo, th.pc = .allowed todo →
-      ∃ pre, chain cfg th.q = pre ++ todo ∧ ∀ p ∈ pre, LEv.allowed (keyOf p th.h) th.r true ∈ log) :
+      ∃ pre, chain cfg th.q = pre ++ todo ∧ ∀ p ∈ pre, ∃ amt, LEv.allowed (keyOf p th.h) th.r true amt ∈ log) :
     (∀ i r q b, LEv.verdict i r q b ∈ (stepThread cfg st now tid th).2.2 → i = tid) ∧
     (∀ todo, (stepThread cfg st now tid th).2.1 = .allowed todo →
       ∃ pre, chain cfg th.q = pre ++ todo ∧
-        ∀ p ∈ pre, LEv.allowed (keyOf p th.h) th.r true ∈ (stepThread cfg st now tid th).2.2 ++ log) ∧
+        ∀ p ∈ pre, ∃ amt, LEv.allowed (keyOf p th.h) th.r true amt ∈ (stepThread cfg st now tid th).2.2 ++ log) ∧
     (∀ r q, LEv.verdict tid r q true ∈ (stepThread cfg st now tid th).2.2 →
       r = th.r ∧ q = th.q ∧
-        ∀ p ∈ chain cfg th.q, LEv.allowed (keyOf p th.h) th.r true ∈ (stepThread cfg st now tid th).2.2 ++ log) := by
+        ∀ p ∈ chain cfg th.q, ∃ amt, LEv.allowed (keyOf p th.h) th.r true amt ∈ (stepThread cfg st now tid th).2.2 ++ log) := by
   unfold stepThread
   cases hpc : th.pc with
   | done v => simp
@@ -106,10 +106,10 @@ theorem stepThread_verdict (cfg : Cfg) (st : St) (now tid : Nat) (th : Thread) (
             rw [hch] at hp
             simp only [List.mem_append, List.mem_singleton] at hp
             rcases hp with hp | hp
-            · simp only [List.cons_append, List.nil_append, List.mem_cons]
-              right; right; exact hadm p hp
+            · obtain ⟨amt, ha⟩ := hadm p hp
+              exact ⟨amt, by simp [ha]⟩
             · subst hp
-              simp [keyOf]
+              exact ⟨pendingAmt (st.at (a, groupOf c th.h)) th.r, by simp [keyOf]⟩
         | cons x xs =>
           dsimp only
           refine ⟨by simp, ?_, by simp⟩
@@ -120,10 +120,10 @@ theorem stepThread_verdict (cfg : Cfg) (st : St) (now tid : Nat) (th : Thread) (
           intro p hp
           simp only [List.mem_append, List.mem_singleton] at hp
           rcases hp with hp | hp
-          · simp only [List.cons_append, List.nil_append, List.mem_cons]
-            right; exact hadm p hp
+          · obtain ⟨amt, ha⟩ := hadm p hp
+            exact ⟨amt, by simp [ha]⟩
           · subst hp
-            simp [keyOf]
+            exact ⟨pendingAmt (st.at (a, groupOf c th.h)) th.r, by simp [keyOf]⟩
       · dsimp only
         refine ⟨?_, by simp, by simp⟩
         intro i r q b h
@@ -187,7 +187,7 @@ theorem VInv.act (cfg : Cfg) (s : Sys) (a : Act) (inv : VInv cfg s) : VInv cfg (
           exact h2 todo hpc
         · rw [List.getElem?_set_ne (Ne.symm hit)] at hi
           obtain ⟨pre, hc, ha⟩ := inv.pre i th' todo hi hpc
-          exact ⟨pre, hc, fun p hp => List.mem_append_right _ (ha p hp)⟩
+          exact ⟨pre, hc, fun p hp => by obtain ⟨amt, hx⟩ := ha p hp; exact ⟨amt, List.mem_append_right _ hx⟩⟩
       · intro i th' r q hi hv
         by_cases hit : i = tid
         · subst hit
@@ -198,13 +198,13 @@ theorem VInv.act (cfg : Cfg) (s : Sys) (a : Act) (inv : VInv cfg s) : VInv cfg (
           rcases hv with hv | hv
           · exact h3 r q hv
           · obtain ⟨e1, e2, e3⟩ := inv.ver i th r q hth hv
-            exact ⟨e1, e2, fun p hp => List.mem_append_right _ (e3 p hp)⟩
+            exact ⟨e1, e2, fun p hp => by obtain ⟨amt, hx⟩ := e3 p hp; exact ⟨amt, List.mem_append_right _ hx⟩⟩
         · rw [List.getElem?_set_ne (Ne.symm hit)] at hi
           simp only [List.mem_append] at hv
           rcases hv with hv | hv
           · exact absurd (h1 i r q true hv) hit
           · obtain ⟨e1, e2, e3⟩ := inv.ver i th' r q hi hv
-            exact ⟨e1, e2, fun p hp => List.mem_append_right _ (e3 p hp)⟩
+            exact ⟨e1, e2, fun p hp => by obtain ⟨amt, hx⟩ := e3 p hp; exact ⟨amt, List.mem_append_right _ hx⟩⟩
 
 theorem VInv.run (cfg : Cfg) (acts : List Act) : ∀ (s : Sys), VInv cfg s → VInv cfg (Sys.run cfg s acts) := by
   induction acts with
